@@ -72,13 +72,21 @@ func parseEvalConfig(configArg rel.Value) (*EvalConfig, error) {
 	parsedConfig := EvalConfig{}
 	scopes, found := config.Get("scope")
 	if found {
-		parsedConfig.scopes = scopes.(rel.Tuple)
+		t, ok := scopes.(rel.Tuple)
+		if !ok {
+			return nil, errors.Errorf("config scope must be tuple, not %s", rel.ValueTypeAsString(scopes))
+		}
+		parsedConfig.scopes = t
 	} else {
 		parsedConfig.scopes = rel.EmptyTuple
 	}
 	stdlib, found := config.Get("stdlib")
 	if found {
-		parsedConfig.stdlib = stdlib.(rel.Tuple)
+		t, ok := stdlib.(rel.Tuple)
+		if !ok {
+			return nil, errors.Errorf("config stdlib must be tuple, not %s", rel.ValueTypeAsString(stdlib))
+		}
+		parsedConfig.stdlib = t
 	}
 	return &parsedConfig, nil
 }
